@@ -2,6 +2,7 @@ import RModel.Driver.State
 import RModel.Impl.Repr
 import RModel.Impl.ArrayC
 import RModel.Impl.ContOps
+import RModel.Impl.ContQuery
 import RModel.Driver.Ser
 /-! container-kernel command family: direct calls of the unexported 16-bit kernels (C01, C03, C15, C16 amplifier). -/
 namespace RModel.Driver
@@ -58,6 +59,30 @@ def kernSem (op : String) (a b : BSet) (args : List Int) : Option (Option BSet Ã
       some (if r.isEmpty then (none, some (-1)) else (some r, none))
   | _ => none
 
+/-- the L2 query model (`Impl/ContQuery.lean`: the Go ALGORITHMS of the query kernels) on a receiver, for in-domain
+arguments (`x < 65536`; `getCardinalityInRange`: `start, end â‰¤ 65536`); `none` = not a query kernel / out of domain -/
+def kernQuery (op : String) (c : Cont) (args : List Int) : Option Int :=
+  let arg (i : Nat) : Nat := (args.getD i 0).toNat
+  let b2i (x : Bool) : Int := if x then 1 else 0
+  let dom16 := args.length == 1 && args.all (fun a => 0 â‰¤ a && a < 65536)
+  match op with
+  | "rank" => if dom16 then some (c.rankQ (arg 0)) else none
+  | "selectInt" => if dom16 then some (c.selectQ (arg 0)) else none
+  | "contains" => if dom16 then some (b2i (c.containsQ (arg 0))) else none
+  | "getCardinality" => some c.getCardinalityQ
+  | "getCardinalityInRange" =>
+      if args.length == 2 && args.all (fun a => 0 â‰¤ a && a â‰¤ 65536) then some (c.cardInRangeQ (arg 0) (arg 1)) else none
+  | "minimum" => some c.minimumQ
+  | "maximum" => some c.maximumQ
+  | "nextValue" => if dom16 then some (c.nextValueQ (arg 0)) else none
+  | "previousValue" => if dom16 then some (c.previousValueQ (arg 0)) else none
+  | "nextAbsentValue" => if dom16 then some (c.nextAbsentValueQ (arg 0)) else none
+  | "previousAbsentValue" => if dom16 then some (c.previousAbsentValueQ (arg 0)) else none
+  | "numberOfRuns" => some c.numberOfRunsQ
+  | "isFull" => some (b2i c.isFullQ)
+  | "isEmpty" => some (b2i c.isEmptyQ)
+  | _ => none
+
 def inPlaceOps : List String :=
   ["resetTo", "iand", "ior", "ixor", "iandNot", "lazyIOR", "iaddRange", "iremoveRange", "inot", "iaddReturnMinimized",
    "iremoveReturnMinimized", "iadd", "iremove"]
@@ -86,6 +111,18 @@ def stepKern (st : St) (cmd : List String) (got : String) : Option (St Ã— Verdic
             match expScal with
             | none => none
             | some v => if scS == toString v then none else some ("scalar " ++ toString v)
+          -- L2 tie of the query kernels: for a well-formed receiver the Go scalar is the value of the modelled ALGORITHM
+          -- (checked after `scOk`: a Go scalar that differs from the set-level answer is reported as such first)
+          let scOk : Verdict :=
+            match scOk with
+            | some m => some m
+            | none =>
+              if cb.isNone && ca.wfQ then
+                match kernQuery op ca args with
+                | some v =>
+                  if scS == toString v then none else some ("L2 query model = Go scalar; model: " ++ toString v)
+                | none => none
+              else none
           let aliasOk : Verdict :=
             if alias == "arg" || alias == "arg-backing" then some "result must not alias the argument" else none
           let bOk : Verdict :=
